@@ -2182,8 +2182,13 @@ def _contains(token: TokenT, left: object, right: object) -> bool:
             right = right.__liquid__()
 
         if isinstance(left, range):
-            # Constant time, however long the range is.
-            return not isinstance(right, bool) and right in left
+            # Constant time, however long the range is. Python would walk the
+            # range looking for anything but an int.
+            if isinstance(right, float) and right.is_integer():
+                right = int(right)
+            return (
+                isinstance(right, int) and not isinstance(right, bool) and right in left
+            )
 
         if isinstance(left, Sequence):
             # Membership by Liquid equality. `true` is not `1`.
